@@ -32,6 +32,26 @@ identifiers, the identifiers are exactly `0, …, N-1`, each carried by one stru
 theorem C02_final_ids (f : List Tree) (h : GoodForest f) :
     ((preL (relabel f)).map Tree.id).Perm (List.range (preL f).length) := relabel_ids_perm f h
 
+/-- **C02 (for the dendrogram that `compute` returns).** Identifiers are exactly `0 … N-1`, every
+branch has ≥ 2 children, no structure is empty. -/
+theorem C02_compute_ids (E : Env) (order : List Nat) (hnd : order.Nodup) :
+    ((preL (compute E order)).map Tree.id).Perm (List.range (preL (compute E order)).length) :=
+  P30.compute_ids E order hnd
+theorem C02_compute_arity (E : Env) (order : List Nat) :
+    (∀ t ∈ preL (compute E order), PArity t) ∧ (∀ t ∈ preL (compute E order), t.own ≠ []) :=
+  ⟨P30.compute_arity E order, P30.compute_own_nonempty E order⟩
+
+/-- **C02 (for every dendrogram obtained by compute, prune and load).** `P30.Reach E order n f`:
+`f` is obtained from `compute E order` by any sequence of prunes (arbitrary criteria) and
+save/load cycles.  Every such forest is well formed (distinct identifiers, every pixel owned
+once, in range), has branches with ≥ 2 children and no empty structure — so the accessor theorems
+of C06 apply to it. -/
+theorem C02_reachable_wellformed (E : Env) (order : List Nat) (hnd : order.Nodup) (n : Nat)
+    (hn : ∀ p ∈ order, p < n) :
+    ∀ f, P30.Reach E order n f →
+      P8.WF f n ∧ IdsNodup f ∧ (∀ s ∈ preL f, PArity s) ∧ (∀ s ∈ preL f, s.own ≠ []) :=
+  P30.reach_wf E order hnd n hn
+
 -- non-vacuity: a forest with a branch satisfying `GoodForest`
 example : GoodForest [node 7 [3, 0] [node 2 [1] [], node 9 [4] []], node 5 [6] []] := by
   refine ⟨by decide, ?_, by decide⟩
